@@ -506,7 +506,7 @@ class Mp4Atom(ObjectWithFields):
             kwargs['options'] = options
             new_atom = Box(**kwargs)
             new_atom.payload_start = src.tell()
-            if atom.parse_children:
+            if new_atom.parse_children:
                 options.log.debug('Parse %s children', new_atom.atom_type)
                 Mp4Atom.load(src, new_atom, options)
             options.log.debug('finished parsing of deferred "%s"',
